@@ -17,7 +17,7 @@ RULE = (
     "(prices, values, positions, cash, fees, flows, outlays, bid/offer paid, notional values) and the transactions dated <= t must be bit-identical (NaN == NaN); a node present in one run "
     "only must be flat up to t; an exception must be the same and raised on the same date if it is raised at or before t. non-trivial = the two runs differ somewhere after t and at least "
     "one trade happened at or before t. blotter: the same relation for ReplayTransactions / SimulateRFQTransactions fed with transaction / RFQ lists whose rows carry their own stamps (on and between bars) in time order, grouped by security or shuffled, "
-    "rows stamped after t perturbed; plus the schedule itself (position on each bar == sum of the rows stamped up to it). distinct = distinct spec hashes."
+    "rows stamped after t perturbed; plus the schedule itself (position on each bar == sum of the rows stamped up to it). gap: a ticker misses a print on bar t while flat, the strategy starts selecting on t, and in the second run the ticker never prints again after the cut (>= t). distinct = distinct spec hashes."
 )
 ASSUMPTIONS = ["only stock algos are quantified (user-written algos can look ahead at will)", "index and columns of the supplied frames are not perturbed"]
 BUILDS = {"quick": ["py"], "thorough": ["py", "cy"]}
@@ -464,6 +464,46 @@ def case_blotter(ctx, spec):
     return res
 
 
+# ---- a missing print while flat: survivorship must not leak in ----------------------------------------------------
+@st.composite
+def interior_gap_spec(draw):
+    """one ticker has no print on bar t (a holiday on its exchange) while nobody holds it; the strategy starts selecting on t. Whether
+    that ticker ever prints again is future information: in the second run it is delisted after the cut (>= t). What is traded on t must
+    not depend on it."""
+    ds = draw(gen.dates(5, 12, kinds=("bday", "daily", "mixed")))
+    n = len(ds)
+    nt = draw(st.integers(2, 4))
+    tickers = gen.TICKERS[:nt]
+    pr = {t: draw(gen.price_path(n, vol=0.02, decimals=4)) for t in tickers}
+    g = draw(st.sampled_from(tickers))
+    t = draw(st.integers(1, n - 3))
+    pr[g][t] = None
+    if t + 1 < n - 2 and draw(st.integers(0, 3)) == 0:
+        pr[g][t + 1] = None  # a two-bar gap
+    gate = draw(st.sampled_from(["on_dates", "after"]))
+    if gate == "on_dates":
+        later = sorted(draw(st.lists(st.integers(t + 1, n - 1), min_size=0, max_size=3, unique=True)))
+        head = [["RunOnDate", {"dates": [ds[t]] + [ds[i] for i in later]}]]
+    else:
+        head = [["RunAfterDate", {"date": ds[t - 1]}]]
+    sel = draw(st.sampled_from([["SelectAll", {}], ["SelectHasData", {"lookback": {"days": 3}, "min_count": 1}], ["SelectThese", {"tickers": list(tickers)}]]))
+    weigh = draw(st.sampled_from([["WeighEqually", {}], ["WeighEqually", {}], ["WeighRandomly", {}]]))
+    spec = {
+        "family": "interior_gap",
+        "dates": ds,
+        "prices": pr,
+        "rng_seed": draw(st.integers(0, 5)),
+        "frames": {},
+        "additional": [],
+        "integer_positions": draw(st.booleans()),
+        "initial_capital": 1e6,
+        "fee": draw(gen.fee_spec(gen.min_price(pr), kinds=("none", "prop"))),
+        "tree": {"name": "root", "kind": "Strategy", "algos": head + [sel, weigh, ["Rebalance", {}]]},
+    }
+    spec["perturb"] = {"cut": draw(st.integers(t, n - 2)), "factors": draw(st.lists(st.sampled_from([0.7, 0.9, 1.1, 1.4, 1.0]), min_size=5, max_size=20)), "list_early": False, "delist": g}
+    return spec
+
+
 @st.composite
 def pair_spec(draw):
     k = draw(st.integers(0, 21))
@@ -510,10 +550,11 @@ def pair_spec(draw):
     return spec
 
 
-SUBS = {"pair": case_pair, "blotter": case_blotter}
-STRATS = {"pair": pair_spec, "blotter": blotter_spec}
+SUBS = {"pair": case_pair, "blotter": case_blotter, "gap": case_pair}
+STRATS = {"pair": pair_spec, "blotter": blotter_spec, "gap": interior_gap_spec}
 
 
 def shard(ctx):
     run_sub(ctx, "pair", pair_spec(), lambda s: case_pair(ctx, s), ctx.n(5000, 60000))
     run_sub(ctx, "blotter", blotter_spec(), lambda s: case_blotter(ctx, s), ctx.n(800, 12000))
+    run_sub(ctx, "gap", interior_gap_spec(), lambda s: case_pair(ctx, s), ctx.n(800, 12000))
